@@ -174,6 +174,24 @@ def vars_get():
         obs, _ = check_function("rsome.lp:Vars.__call__", setup, lambda ns: ns["x"](),
                                 [post("agrees-with-get", right_entries)], mode="D", label=f"shape={shape}", bounded=True)
         out += obs
+        # slices of a variable: x[idx].get() and x[idx]() are NumPy's x.get()[idx]
+        if shape != ():
+            idxs = {(3,): [0, slice(None, None, -1), slice(1, None), [2, 0]], (2, 2): [0, (slice(None), 1), (1, 0), slice(None, None, -1)],
+                    (2, 1, 2): [1, (0, 0), (slice(None), 0, 1), (Ellipsis, 0)]}[shape]
+            for idx in idxs:
+                def sliced(ns, res, idx=idx):
+                    shape, first, xbar = ns["shape"], ns["first"], ns["xbar"]
+                    full = np.empty(shape, dtype=object)
+                    for ii in np.ndindex(shape):
+                        full[ii] = xbar[first + int(np.ravel_multi_index(ii, shape))]
+                    want = full[idx]
+                    if tuple(np.shape(res)) != tuple(np.shape(want)):
+                        return False
+                    return views.all_eq(np.asarray(res, dtype=object), want) if np.shape(want) != () else p_eq(res, want)
+                for how, f in (("get", lambda ns, idx=idx: ns["x"][idx].get()), ("__call__", lambda ns, idx=idx: ns["x"][idx]())):
+                    obs, _ = check_function(f"rsome.lp:VarSub.{how}", setup, f, [post("numpy-slice-of-the-variable's-values", sliced)], mode="D",
+                                            label=f"shape={shape},index={idx}", bounded=True)
+                    out += obs
 
     def setup_unsolved(c):
         m = ro.Model()
